@@ -48,14 +48,22 @@ var recipes = []recipe{
 	{"ubi-proposal", func(r *hx.Rng, s uint64, o hx.Counter, a bool) []Case {
 		return runUbi(UbiParams{Seed: s, Period: pickU(r, 0, 1, 3600, 86400, 31556952), Amount: pickU(r, 1, 10, 1000000, 1<<62)}, o)
 	}, 1},
-	{"gov-vote-patterns", func(r *hx.Rng, s uint64, o hx.Counter, a bool) []Case { return runVotePatterns(drawVotePatterns(r, s), o) }, 2},
-	{"gov-poll-patterns", func(r *hx.Rng, s uint64, o hx.Counter, a bool) []Case { return runPollPatterns(PollPatternParams{Seed: s}, o) }, 1},
+	{"gov-vote-patterns", func(r *hx.Rng, s uint64, o hx.Counter, a bool) []Case {
+		return runVotePatterns(drawVotePatterns(r, s), o)
+	}, 2},
+	{"gov-poll-patterns", func(r *hx.Rng, s uint64, o hx.Counter, a bool) []Case {
+		return runPollPatterns(PollPatternParams{Seed: s}, o)
+	}, 1},
 	{"stake-rewards", func(r *hx.Rng, s uint64, o hx.Counter, a bool) []Case { return runRewards(drawRewards(r, s, a), o) }, 3},
 	{"slash-proposal", func(r *hx.Rng, s uint64, o hx.Counter, a bool) []Case {
 		return runSlash(SlashParams{Seed: s, Delegate: pickS(r, "", "1000000ukex", "5000ubtc", "1000000ukex,5000ubtc"), Vote: r.Intn(5), Slash: pickS(r, "0", "0.01", "0.5", "1")}, o)
 	}, 2},
-	{"recovery-rotation", func(r *hx.Rng, s uint64, o hx.Counter, a bool) []Case { return runRotation(RotationParams{Seed: s, Rotate: a}, o) }, 1},
-	{"collective", func(r *hx.Rng, s uint64, o hx.Counter, a bool) []Case { return runCollective(drawCollective(r, s, a), o) }, 2},
+	{"recovery-rotation", func(r *hx.Rng, s uint64, o hx.Counter, a bool) []Case {
+		return runRotation(RotationParams{Seed: s, Rotate: a}, o)
+	}, 1},
+	{"collective", func(r *hx.Rng, s uint64, o hx.Counter, a bool) []Case {
+		return runCollective(drawCollective(r, s, a), o)
+	}, 2},
 	{"dapp-bootstrap", func(r *hx.Rng, s uint64, o hx.Counter, a bool) []Case { return runDapp(drawDapp(r, s, a), o) }, 3},
 	{"basket", func(r *hx.Rng, s uint64, o hx.Counter, a bool) []Case {
 		return runBasket(BasketParams{Seed: s, LimitsPeriod: pickU(r, 0, 1, 86400, ^uint64(0))}, o)
